@@ -25,7 +25,7 @@ RULE = (
     "Hypothesis zone-heavy model documents (zone weight x4; 1-6 zones per document at assignment/META/block/section positions "
     "and as bare block children; content lines over a hostile alphabet; fence 3-6; tags none/python/json5+x/sh/text) in "
     "canonical and lenient spellings, through parse, parse(emit), octave_validate(fix off, fix on), octave_write(content / "
-    "changes on another key / normalize), seal_document+verify, octave_eject(canonical, octave|json) [tools on every 3rd case]. "
+    "changes on another key / normalize), seal_document+verify, CLI normalize / seal -o, octave_eject(canonical, octave|json) [tools on every 3rd case]. "
     "Oracle: the frame (kinds, keys, nesting, order, with every zone's (content, tag, fence) and every other value reduced to "
     "its kind) equals the model's frame, and the text lines between each fence pair equal the generated lines. Non-trivial = "
     "a zone with hostile content, or a zone below top level, or >=2 zones; distinct by rendered text."
@@ -230,6 +230,19 @@ def oracle(doc, sp, text, info, with_tools=None):
                 if w3.get("status") == "success":
                     t3 = open(path, encoding="utf-8", newline="").read()
                     fails += _cmp("write-normalize", (wf[0], wf[1], wf[2] + (("assign", "ZZ_OTHER", "atom"),)), wz, t3)
+            # CLI on the written file: normalize (stdout and -o) and seal -o
+            if os.path.exists(path) and w.get("status") == "success":
+                tfile = open(path, encoding="utf-8", newline="").read()
+                tz_file = text_zones(tfile)
+                code, out, err, exc = tools.cli(["normalize", path])
+                if exc is None and code == 0 and text_zones(out) != tz_file:
+                    fails.append(("C05:unlisted:cli-normalize:text", f"CLI normalize changed zone lines: {text_zones(out)!r} vs {tz_file!r}"))
+                outp = os.path.join(root, "s.oct.md")
+                code, out, err, exc = tools.cli(["seal", path, "-o", outp])
+                if exc is None and code == 0 and os.path.exists(outp):
+                    ts = open(outp, encoding="utf-8", newline="").read()
+                    if text_zones(ts) != tz_file:
+                        fails.append(("C05:unlisted:cli-seal:text", f"CLI seal -o changed zone lines: {text_zones(ts)!r} vs {tz_file!r}"))
         e = tools.eject(content=c1, schema="META", mode="canonical", format="octave")
         if isinstance(e.get("output"), str) and not e["output"].startswith("// Parse error"):
             fails += _cmp("eject-octave", wf, wz, e["output"])
